@@ -37,3 +37,17 @@ int _memrchr_s_chk(const void *dest, size_t dmax, int ch, void **result, size_t 
     while (dmax) { dmax--; if (p[dmax] == (unsigned char)ch) { *result = (void *)(p + dmax); return 0; } }
     *result = 0; return 409;
 }
+
+/* a string operand and a libc block reader: the length must be measured, not the declared maximum */
+extern void *memchr(const void *, int, unsigned long);
+extern unsigned long strnlen(const char *, unsigned long);
+unsigned long fx2_span_memchr_declared(const char *dest, unsigned long dmax, const char *src, unsigned long slen) {
+    unsigned long n = 0;
+    while (dmax && *dest) { if (!memchr(src, *dest, slen)) break; n++; dest++; dmax--; }        /* reads src behind its terminator */
+    return n;
+}
+unsigned long fx2_span_memchr_measured(const char *dest, unsigned long dmax, const char *src, unsigned long slen) {
+    unsigned long n = 0, len = strnlen(src, slen);
+    while (dmax && *dest) { if (!memchr(src, *dest, len)) break; n++; dest++; dmax--; }
+    return n;
+}
